@@ -6,4 +6,7 @@ let components : (string * Generic.component) list = [
   ("unit", UnitComp.unit_component);
   ("persist", PersistComp.persist_component);
   ("fifo", FifoComp.fifo_component);
+  ("lru", LruComp.lru_component);
+  ("adapter", AdapterComp.adapter_component);
+  ("immunity", ImmunityComp.immunity_component);
 ]
